@@ -43,7 +43,7 @@ class Directive:
 
 
 SUB = ("@ret", "@requires", "@ensures", "@closure", "@loop", "@prefix", "@insert_before", "@recommends",
-       "@decreases", "@nested", "@attr", "@closure_types", "@generics", "@replace", "@loop_begin", "@loop_end", "@adapter", "@inline_snapshot_update", "@rename_param")
+       "@decreases", "@nested", "@attr", "@closure_types", "@generics", "@replace", "@loop_begin", "@loop_end", "@adapter", "@inline_snapshot_update", "@rename_param", "@after_loop")
 
 
 def parse_spec(path: str):
@@ -710,6 +710,11 @@ class Gen:
                     sp.insert(st[nm + 1].end, ADD("E15", ", ".join(adds) + ", "))
                 else:
                     sp.insert(st[nm].end, ADD("E15", "<" + ", ".join(adds) + ">"))
+            if c.kind == "after_loop":
+                k = int(c.args[0])
+                if k < 1 or k > len(loops):
+                    raise AnchorLost(f"{fid}: loop {k} not found ({len(loops)} loops)")
+                sp.insert(st[loops[k - 1].body_close].end, ADD("E10", "\n" + c.text.rstrip() + "\n"))
             if c.kind in ("loop_begin", "loop_end"):
                 k = int(c.args[0])
                 if k < 1 or k > len(loops):
